@@ -181,7 +181,7 @@ def main(argv=None):
         new_violations.append(fr)
 
     out_lines = []
-    fdir = os.path.join(env.VERIF, "replays", "found")
+    fdir = os.environ.get("VERIF_FOUND_DIR") or os.path.join(env.VERIF, "replays", "found")
     for f in new_violations:
         if "file" in f:
             path = f["file"]
@@ -221,14 +221,16 @@ def main(argv=None):
         "wall_s": round(wall, 2),
         "violations": len(new_violations),
     }
-    os.makedirs(os.path.join(env.VERIF, "evidence"), exist_ok=True)
-    with open(os.path.join(env.VERIF, "evidence", prop + ".json"), "w") as fh:
+    evdir = os.environ.get("VERIF_EVIDENCE_DIR") or os.path.join(env.VERIF, "evidence")
+    os.makedirs(evdir, exist_ok=True)
+    with open(os.path.join(evdir, prop + ".json"), "w") as fh:
         json.dump(ev, fh, indent=1, sort_keys=True)
 
     for line in known_lines:
         print(line)
-    print("%s tier=%s seed=%d evaluations=%d distinct_nontrivial=%d shards=%d wall=%.1fs" % (
-        prop, args.tier, seed, evaluations, len(nontrivial), len(shards), wall))
+    print("%s tier=%s seed=%d evaluations=%d distinct_nontrivial=%d shards=%d wall=%.1fs (slowest shard %.1fs)" % (
+        prop, args.tier, seed, evaluations, len(nontrivial), len(shards), wall,
+        max([r["wall"] for r in results] or [0])))
     if harness_errors:
         for r in harness_errors[:3]:
             print("HARNESS-ERROR shard %d rc=%s\n%s" % (r["idx"], r["rc"], r["stderr"][-3000:]))
